@@ -30,7 +30,10 @@ pub mod scan {
     #[verifier::external_body]
     pub fn scan<'a, L, C, K>(wallet_inst: Arc<Mutex<Box<dyn WalletInst<'a, L, C, K>>>>, keychain_mask: Option<&SecretKey>, delete_unconfirmed: bool,
         start_height: u64, end_height: u64, status_send_channel: &Option<Sender<StatusMessage>>) -> (r: Result<ScannedBlockInfo, Error>)
-        where L: WalletLCProvider<'a, C, K>, C: NodeClient + 'a, K: Keychain + 'a { unimplemented!() }
+        where L: WalletLCProvider<'a, C, K>, C: NodeClient + 'a, K: Keychain + 'a
+        // (proved in unit scan_full: scan_reports_the_range_it_covered)
+        ensures r matches Ok(i) ==> i.height == end_height
+    { unimplemented!() }
 }
 // C17 "a refresh at such a height cancels the wallet's own still-unconfirmed transaction": tx::cancel_tx as called by the
 // refresh. Its PRECONDITION is the release rule: the entry is addressed by its own log id (a slate id may match two
